@@ -202,11 +202,14 @@ def evaluate(i, m, args):
             return res
         env = dict(os.environ, PYTHONPATH=f"{scratch}/src", PYTHONDONTWRITEBYTECODE="1")
         t0 = time.time()
-        try:
+        if getattr(args, "skip_suite", False):
+            suite_ok, tail = True, ["not re-run"]
+        else:
+          try:
             r = subprocess.run(["/venv/bin/python", "-m", "pytest", "-x", "-q", "-p", "no:cacheprovider", "-o", "addopts=", "--timeout=120"], cwd=scratch, env=env, capture_output=True, text=True, timeout=600)
             suite_ok = r.returncode == 0
             tail = r.stdout.strip().splitlines()[-1:] if r.stdout.strip() else []
-        except subprocess.TimeoutExpired:
+          except subprocess.TimeoutExpired:
             suite_ok, tail = False, ["timeout"]
         res["suite"] = "passed" if suite_ok else "failed"
         res["suite_tail"] = tail[0][:120] if tail else ""
@@ -253,10 +256,38 @@ def main():
     t = sub.add_parser("table")
     t.add_argument("file")
     c = sub.add_parser("count")
+    rc = sub.add_parser("recheck")
+    rc.add_argument("file")
+    rc.add_argument("--par", type=int, default=2)
+    rc.add_argument("--jobs", type=int, default=8)
+    rc.add_argument("--keep-going-on-error", action="store_true")
     args = ap.parse_args()
     if args.cmd == "count":
         for f in FILES:
             print(f, len(mutants_of(f)))
+        return
+    if args.cmd == "recheck":
+        # survivors of an earlier campaign against the checks as they are now (mutants whose place in the file has
+        # changed since are left alone)
+        d = json.load(open(args.file))
+        todo = [m for m in d["mutants"] if m["status"] in ("survived", "harness-error")]
+
+        def again(im):
+            i, m = im
+            b = open(f"{REPO}/src/watchdog/{m['file']}", "rb").read()
+            if b[m["start"] : m["end"]].decode(errors="replace") != m["old"]:
+                return m, None
+            args.skip_suite = True
+            return m, evaluate(10000 + i, {k: m[k] for k in ("file", "line", "start", "end", "old", "new", "op", "func")}, args)
+
+        with ThreadPoolExecutor(max_workers=args.par) as ex:
+            for m, res in ex.map(again, enumerate(todo)):
+                if res is None:
+                    m["recheck"] = "place changed since"
+                else:
+                    m["recheck"] = {"status": res["status"], "caught_by": res.get("caught_by"), "checks": {k: v["rc"] for k, v in res.get("checks", {}).items()}}
+                print(m["file"], m["line"], m["op"], "->", m["recheck"] if isinstance(m["recheck"], str) else m["recheck"]["status"], m["recheck"].get("caught_by") if isinstance(m["recheck"], dict) else "", flush=True)
+                json.dump(d, open(args.file, "w"), indent=1)
         return
     if args.cmd == "table":
         d = json.load(open(args.file))
